@@ -55,6 +55,7 @@ SameCounters(a, b) == a.atoms = b.atoms /\ a.pairs = b.pairs /\ a.heap = b.heap
 RelHolds(k, a, b) ==
   CASE k = "eq_full" -> ObsFull(a) = ObsFull(b)                                   \* C04, C05
     [] k = "eq_outcome" -> Observed(a) = Observed(b)                              \* C03, C30
+    [] k = "eq_outcome_c30" -> (a.beyond \/ b.beyond \/ ~a.decided \/ ~b.decided \/ Observed(a) = Observed(b))   \* C30
     [] k = "ok_implies_ok_same" -> (a.ok => OkSame(a, b))                         \* C07: a = F+R, b = F
     [] k = "other_ok_implies_ok_same" -> (b.ok => OkSame(a, b))                   \* C07 RELAXED_BLS, a = F+RELAXED
     [] k = "other_ok_implies_ok_same_counters" -> (b.ok => OkSame(a, b) /\ SameCounters(a, b))  \* C08: a = unaware, b = aware
@@ -64,8 +65,8 @@ RelHolds(k, a, b) ==
          LET M == a.budget
          IN  /\ a.ok => /\ b.ok /\ OkSame(a, b) /\ NLe(a.cost, M)
              /\ (~a.ok) => (b.ok => a.kind = "CostExceeded")
-             /\ (b.ok /\ ~b.exempt /\ NGe(M, b.cost)) => a.ok
-             /\ (b.ok /\ NLt(M, b.cost) /\ ~b.exempt) => ~a.ok
+             /\ (b.ok /\ b.decided /\ ~b.exempt /\ NGe(M, b.cost)) => a.ok
+             /\ (b.ok /\ b.decided /\ NLt(M, b.cost) /\ ~b.exempt) => ~a.ok
     [] k = "budget_up" ->                                                          \* C02: b succeeded with a smaller budget
          ((b.ok /\ NGe(a.budget, b.budget)) => a.ok)
     [] OTHER -> FALSE
@@ -122,7 +123,8 @@ End(e) ==
   /\ LET spec == Outcome(st)
          obs == Observed(e)
          decided == st.status \in {"ok", "err"}
-         me == e @@ [exempt |-> st.exempt, budget |-> Rec[e.begin_line].budget]
+         me == e @@ [exempt |-> st.exempt, beyond |-> st.beyond, decided |-> st.status \in {"ok", "err"},
+                     budget |-> Rec[e.begin_line].budget]
      IN  /\ IF ~decided \/ spec = obs THEN TRUE
             ELSE Report("outcome", e, [expected |-> spec, observed |-> obs, steps |-> st.steps])
          /\ IF decided /\ spec = obs /\ e.ok
